@@ -12,11 +12,12 @@ the background load itself (that is C18's business); only the world's own oracle
 """
 from collections import Counter
 
-from . import env, files, seeds
+from . import chunkio, env, files, seeds
 from .simio import Ctx, HarnessTimeout, active, READ_FAULTS, SEEK_FAULTS
 
 from rv.readers.reader import read_sunvox_file
 
+DAMAGE_IDS = ("SLNK", "SLNK", "SLnK", "CVAL", "STYP", "SFFF", "SNAM", "CHNM", "CHDT", "CMID", "PDTA", "PFFF", "SFIN", "SREL", "SSCL", "SMII", "SMIB")
 FIRED = Counter()
 LOG = []
 
@@ -30,7 +31,16 @@ def take():
 
 def run(op):
     data = files.materialize(op["file"])
-    ctx = Ctx(op.get("faults", ()))
+    faults = []
+    for f in op.get("faults", ()):
+        if f["kind"] == "trunc_boundary":
+            # the file ends exactly between two chunks (a copy that stopped at a record boundary)
+            offs = chunkio.boundaries(data)[1:-1] or [len(data) // 2]
+            f = {"kind": "trunc", "at": offs[f["at"] % len(offs)]}
+        elif f["kind"] == "flip" and f["at"] in chunkio.alloc_field_offsets(data):
+            continue  # would ask the loader for up to 2**32 pattern rows: a resource question, not this one
+        faults.append(f)
+    ctx = Ctx(faults)
     out = "loaded"
     try:
         with active(ctx):
@@ -59,16 +69,32 @@ def gen(r):
         spec = {"src": "fixture", "name": r.choice(names)}
     else:
         spec = {"src": "gen", "seed": r.randrange(1 << 20), "nest": r.random() < 0.5, "n": 12, "layout": 2}
+    perturb = []
     if r.random() < 0.4:
-        spec["perturb"] = [["vers", r.randrange(6)]]
+        perturb.append(["vers", r.randrange(6)])
+    if r.random() < 0.35:
+        # a damaged file: stored bytes rewritten with the chunk framing intact (top-level or inside an embedded
+        # container), the optional slot chunk missing
+        for _ in range(r.choice((1, 1, 2))):
+            cid = r.choice(DAMAGE_IDS)
+            inner = ["payload", cid, r.randrange(64), r.randrange(4096), r.choice([0, 1, 0x7F, 0x80, 0xFF, r.randrange(256)])]
+            perturb.append(["in", r.randrange(4), inner] if r.random() < 0.3 else inner)
+        if r.random() < 0.4:
+            perturb.append(["strip", "SLnK"])
+    if perturb:
+        spec["perturb"] = perturb
     faults = []
-    if r.random() < 0.85:
-        kind = r.choice(READ_FAULTS + READ_FAULTS + SEEK_FAULTS + ("trunc", "trunc"))
+    if r.random() < (0.85 if not perturb or perturb[-1][0] == "vers" else 0.3):
+        kind = r.choice(READ_FAULTS + READ_FAULTS + SEEK_FAULTS + ("trunc", "trunc", "trunc_boundary", "trunc_boundary", "flip"))
         if kind == "trunc":
+            at = r.choice((r.randrange(1, 200), r.randrange(1, 3000), r.randrange(1, 40000)))
+        elif kind == "trunc_boundary":
+            at = r.randrange(10000)
+        elif kind == "flip":
             at = r.choice((r.randrange(1, 200), r.randrange(1, 3000), r.randrange(1, 40000)))
         else:
             at = r.choice((r.randrange(8), r.randrange(60), r.randrange(60), r.randrange(600)))
-        faults.append({"kind": kind, "at": at})
+        faults.append({"kind": kind, "at": at} if kind != "flip" else {"kind": kind, "at": at, "xor": r.randrange(1, 256)})
     return {"k": "bgload", "file": spec, "faults": faults}
 
 
